@@ -463,31 +463,42 @@ func genSpec(rnd *rand.Rand, j job, c *core.Ctx) *histSpec {
 		spot(year, month, day, rnd.Intn(24), "hour")
 		spot(year, month, day, rnd.Intn(24), "hour")
 		steps(fl(0), "rollup", fl(0), "rollup", fl(1), "rollup", "tcompact", "rollup", fl(0), fl(1), "rollup", "tcompact", "reopen", fl(1), "rollup")
+	// crash histories: family 0 is a filler hour of the same day created first, so the families that are rolled up
+	// are the 2nd/3rd of their store (kv family ids 2, 3) while the month/year target families are the 1st of theirs
+	// (id 1): source family id != target family id, a reference recorded under the wrong id cannot hide
 	case "crash-first-rollup":
+		spot(year, month, day, 12, "filler-hour")
 		spot(year, month, day, []int{0, 23}[rnd.Intn(2)], "edge-hour")
-		steps(fl(0), fl(0), "crash")
+		steps(fl(1), fl(1), "crash")
 	case "crash-second-rollup":
-		spot(year, month, day, rnd.Intn(24), "hour")
-		steps(fl(0), "rollup", fl(0), fl(0), "crash")
+		hh := 1 + rnd.Intn(23)
+		spot(year, month, day, 0, "filler-hour")
+		spot(year, month, day, hh, "hour")
+		steps(fl(1), fl(0), "rollup", fl(1), fl(1), "crash")
 	case "crash-compacted-before-rollup":
 		// the marked tables were merged by a compaction before the (crashing) rollup runs: the job reads them by file number
-		spot(year, month, day, rnd.Intn(24), "hour")
-		steps(fl(0), fl(0), "compact:0", "crash")
+		hh := 1 + rnd.Intn(23)
+		spot(year, month, day, 0, "filler-hour")
+		spot(year, month, day, hh, "hour")
+		steps(fl(1), fl(1), "compact:1", "crash")
 	case "crash-moved-to-level1-before-rollup":
 		// one marked table moved to level 1 by a forced job, a second one still on level 0
+		spot(year, month, day, 12, "filler-hour")
 		spot(year, month, day, []int{0, 23}[rnd.Intn(2)], "edge-hour")
-		steps(fl(0), "force:0", fl(0), "crash")
+		steps(fl(1), "force:1", fl(1), "crash")
 	case "crash-mixed-compacted-and-level0":
-		// a rolled-up table and two marked tables merged, one more marked table on level 0, a second family untouched
-		hh := 2 * rnd.Intn(12)
+		// a rolled-up table and two marked tables merged, one more marked table on level 0, another family untouched
+		hh := 2 + 2*rnd.Intn(11)
+		spot(year, month, day, 0, "filler-hour")
 		spot(year, month, day, hh, "even-hour")
 		spot(year, month, day, hh+1, "odd-hour-of-the-same-2h-slot")
-		steps(fl(0), "rollup", fl(0), fl(0), "compact:0", fl(0), fl(1), "crash")
+		steps(fl(1), "rollup", fl(1), fl(1), "compact:1", fl(1), fl(2), "crash")
 	case "crash-two-families":
-		hh := 2 * rnd.Intn(12)
+		hh := 2 + 2*rnd.Intn(11)
+		spot(year, month, day, 0, "filler-hour")
 		spot(year, month, day, hh, "even-hour")
 		spot(year, month, day, hh+1, "odd-hour-of-the-same-2h-slot")
-		steps(fl(0), fl(1), "rollup", fl(0), fl(1), "crash")
+		steps(fl(1), fl(2), "rollup", fl(1), fl(2), fl(0), "crash")
 	default: // random walk
 		nSpots := 1 + rnd.Intn(4)
 		for len(s.Spots) < nSpots {
